@@ -65,7 +65,11 @@ impl Indexed {
 }
 
 fn output_size(pixel_format: PixelFormat, expected_pixel_count: usize) -> usize {
-    pixel_format.bytes_per_pixel() * expected_pixel_count
+    // Only used as an upper bound for the data to read, so saturate instead
+    // of overflowing on absurd declared sizes.
+    pixel_format
+        .bytes_per_pixel()
+        .saturating_mul(expected_pixel_count)
 }
 
 #[derive(Debug)]
